@@ -56,7 +56,11 @@ def h16a_sizes(h1, w1, border, query_first, set_h, new_h, cycles, nrows, merged_
     last = nrows - 1                      # the row with the custom height (beyond the first tile when nrows > 256)
     plain = [FakeCell(0.0), FakeCell(0.0)]
     data = [plain for _ in range(last)] + [[FakeCell(border), FakeCell(0.0)]]
-    if merged_col:
+    if merged_col == "row":
+        # the row with the custom height is completely covered by a merge anchored in the row above: no cells of its own
+        assume(border == 0.0 and nrows == 2)
+        data = [plain for _ in range(last)] + [[FakeMerged(), FakeMerged()]]
+    elif merged_col:
         # column 0 (the one with the custom width) is completely covered by a merge anchored in column 1: it has no
         # cells of its own
         assume(border == 0.0)
@@ -118,7 +122,7 @@ def h16b_header_counts(n, R, C, rows):
 HARNESSES = [
     Harness("H16a", h16a_sizes,
             dict(h1=BVDom(14), w1=BVDom(14), border=Cases([0.0, 1.0, 3.0]), query_first=BoolDom(), set_h=BoolDom(), new_h=BVDom(14),
-                 cycles=Cases([1, 2, 3]), nrows=Cases([2, 258]), merged_col=Cases([False, True]),
+                 cycles=Cases([1, 2, 3]), nrows=Cases([2, 258]), merged_col=Cases([False, True, "row"]),
                  defaults=Cases([(20.0, 98.0), (22.0, 80.0)])),
             bounds="stored height/width: every integer number of points 1..10000 (symbolic); border widths {0, 1, 3}; queried or "
                    "not before saving; height set through the API or not; 1..3 save/reopen cycles; the sized row is the last of 2 or of 258 rows (second tile); "
